@@ -168,6 +168,11 @@ func (c13) Run(c *Ctx, csAny any) Outcome {
 		out.Viol = violf("C13:panic-escaped", "input %x: a panic escaped the fuzz function: %v", input, a.res.Panicked)
 		return out
 	}
+	if a.res.Clobbered != "" {
+		// a later call on a longer slice of the same array would see other bytes: "appending bytes never changes the outcome"
+		out.Viol = violf("C13:caller-bytes-modified", "%s", a.res.Clobbered)
+		return out
+	}
 	if a.n != 1 {
 		out.Viol = violf("C13:invocation-count", "input %x: the property was invoked %d times", input, a.n)
 		return out
